@@ -39,7 +39,10 @@ def strat_1d(draw, tier):
     if g["type"] in ("uniform-fixed", "geometric-bounds") and draw(st.integers(0, 2)) == 0:
         pretrunc = [draw(_f(0.6, 8.0)), draw(_f(0.6, 8.0))]
     return {"model": spec, "grid": g, "method": draw(st.sampled_from(METHODS_1D)), "earlier": [list(e) for e in earlier],
-            "pretrunc": pretrunc}
+            "pretrunc": pretrunc,
+            # a chain is built on the grid *before* it is refined (what every level of a coupling does): the grid object
+            # that the chain under test receives has already served a coarser chain
+            "chain_before_refine": draw(st.booleans())}
 
 
 def _method(name):
@@ -60,7 +63,13 @@ def body_1d(case):
         pl, pr = -case["pretrunc"][0] * model_scale(spec), case["pretrunc"][1] * model_scale(spec)
         model.truncate_levy_measure((pl, pr))
     try:
-        grid = build_grid(gspec, model, spec)
+        if case.get("chain_before_refine") and gspec.get("refine", 0) >= 1:
+            grid = build_grid(gspec, model, spec, refine=False)
+            for _ in range(gspec["refine"]):
+                MarkovChainProcess(model=model, method=_method(case["method"]), grid=grid)
+                grid.refine()
+        else:
+            grid = build_grid(gspec, model, spec)
     except GridRejected as e:
         return [Violation("REJECTED", str(e))]
     if len(grid.axes[0]) > 1500:
@@ -183,6 +192,8 @@ def classify_1d(case):
         labels.append("model-object-used-by-earlier-chains")
     if case.get("pretrunc"):
         labels.append("model-already-truncated")
+    if case.get("chain_before_refine") and g["refine"] >= 1:
+        labels.append("grid-served-a-coarser-chain")
     nt = g["refine"] >= 1 or g["type"] != "uniform" or br in ("cgmy/y<0", "cgmy/y=0", "cgmy/y=1")
     return labels, nt
 
